@@ -1,4 +1,163 @@
 package main
 
-// child mode: hazardous implementation calls (may hang or exhaust the stack) run here, one per line.
-func childMain() {}
+// Hazardous implementation calls (may hang, exhaust the stack or crash the process) run in child processes:
+// `vh child` reads one JSON request per line on stdin and writes one JSON answer per line on stdout.
+// The parent (Pool) enforces a wall-clock timeout per request and replaces a child that hangs or dies.
+
+import (
+	"bufio"
+	"encoding/json"
+	"fmt"
+	"os"
+	"os/exec"
+	"runtime/debug"
+	"sync"
+	"time"
+)
+
+type childReq struct {
+	Op string `json:"op"`
+	In any    `json:"in"`
+}
+
+// childOps: op -> implementation runner executed inside the child.
+var childOps = map[string]func(in any) any{}
+
+func childMain() {
+	debug.SetMaxStack(256 << 20) // a runaway recursion dies quickly instead of eating all memory
+	debug.SetGCPercent(100)
+	sc := bufio.NewScanner(os.Stdin)
+	sc.Buffer(make([]byte, 1<<20), 1<<28)
+	w := bufio.NewWriter(os.Stdout)
+	for sc.Scan() {
+		var req childReq
+		dec := json.NewDecoder(bytesReader(sc.Bytes()))
+		dec.UseNumber()
+		if err := dec.Decode(&req); err != nil {
+			fmt.Fprintln(w, `{"err":"bad request"}`)
+			w.Flush()
+			continue
+		}
+		fn := childOps[req.Op]
+		var ans any
+		if fn == nil {
+			ans = M{"err": "unknown child op " + req.Op}
+		} else {
+			ans = fn(req.In)
+		}
+		w.Write(mustJSON(ans))
+		w.WriteByte('\n')
+		w.Flush()
+	}
+}
+
+type worker struct {
+	cmd *exec.Cmd
+	in  *bufio.Writer
+	out *bufio.Scanner
+}
+
+func startWorker() (*worker, error) {
+	self, err := os.Executable()
+	if err != nil {
+		return nil, err
+	}
+	cmd := exec.Command(self, "child")
+	cmd.Env = append(os.Environ(), "GOMEMLIMIT=1500MiB", "GOMAXPROCS=2")
+	stdin, err := cmd.StdinPipe()
+	if err != nil {
+		return nil, err
+	}
+	stdout, err := cmd.StdoutPipe()
+	if err != nil {
+		return nil, err
+	}
+	cmd.Stderr = nil
+	if err := cmd.Start(); err != nil {
+		return nil, err
+	}
+	sc := bufio.NewScanner(stdout)
+	sc.Buffer(make([]byte, 1<<20), 1<<28)
+	return &worker{cmd: cmd, in: bufio.NewWriter(stdin), out: sc}, nil
+}
+
+func (w *worker) kill() {
+	if w != nil && w.cmd != nil && w.cmd.Process != nil {
+		_ = w.cmd.Process.Kill()
+		_, _ = w.cmd.Process.Wait()
+	}
+}
+
+// call sends one request and waits for the answer or the timeout. ok=false means the worker must be replaced.
+func (w *worker) call(op string, in any, timeout time.Duration) (ans any, ok bool) {
+	type res struct {
+		v  any
+		ok bool
+	}
+	ch := make(chan res, 1)
+	go func() {
+		if _, err := w.in.Write(append(mustJSON(childReq{Op: op, In: in}), '\n')); err != nil {
+			ch <- res{M{"crash": "write: " + err.Error()}, false}
+			return
+		}
+		if err := w.in.Flush(); err != nil {
+			ch <- res{M{"crash": "flush: " + err.Error()}, false}
+			return
+		}
+		if !w.out.Scan() {
+			ch <- res{M{"crash": "child process died (stack overflow, fatal error or out of memory)"}, false}
+			return
+		}
+		var v any
+		dec := json.NewDecoder(bytesReader(w.out.Bytes()))
+		dec.UseNumber()
+		if err := dec.Decode(&v); err != nil {
+			ch <- res{M{"crash": "bad answer: " + err.Error()}, false}
+			return
+		}
+		ch <- res{v, true}
+	}()
+	select {
+	case r := <-ch:
+		return r.v, r.ok
+	case <-time.After(timeout):
+		return M{"timeout": true}, false
+	}
+}
+
+// runInChildren evaluates op on every input in parallel child processes with a per-call timeout.
+func runInChildren(op string, inputs []any, timeout time.Duration, parallel int) []any {
+	out := make([]any, len(inputs))
+	idx := make(chan int, len(inputs))
+	for i := range inputs {
+		idx <- i
+	}
+	close(idx)
+	var wg sync.WaitGroup
+	for k := 0; k < parallel; k++ {
+		wg.Add(1)
+		go func() {
+			defer wg.Done()
+			var w *worker
+			defer func() { w.kill() }()
+			for i := range idx {
+				if w == nil {
+					var err error
+					if w, err = startWorker(); err != nil {
+						out[i] = M{"crash": "cannot start child: " + err.Error()}
+						w = nil
+						continue
+					}
+				}
+				ans, ok := w.call(op, inputs[i], timeout)
+				out[i] = ans
+				if !ok {
+					w.kill()
+					w = nil
+				}
+			}
+		}()
+	}
+	wg.Wait()
+	return out
+}
